@@ -24,8 +24,12 @@ bookkeeping and connection of every other peer are untouched, the device is unre
 (`c10_others_unchanged`, `c10_unresolvable`, `c10_drop_partial`), silence along histories whose drops are calm
 (`c10_silence_partial`). Proved at full strength for the repaired member (`c10_device_exact`, `c10_entity_exact`,
 `c10_others_bindings`, `c10_silence`). Not covered by a theorem (harness monitor only): the removal events (one per
-removed entry, one per device / entity), "continues to be served" beyond the state projections, and the clause
-"while messages of other peers are being processed" (C17's question for `remoteDevices`).
+removed entry, one per device / entity) and "continues to be served" beyond the state projections. "While messages
+of other peers are being processed" is modelled at the granularity of the managers' critical sections (a teardown = a
+sequence of passes, `c10_teardown_is_passes`; other peers' entries survive every pass, `c10_subs_pass_others`,
+`c10_binds_pass_others`) and tied to the code by operations of another peer injected at the teardown's event points;
+that each pass really is one critical section is what the injection run checks (a lost update shows up there), the
+data race on `remoteDevices` itself is C17's subject.
 -/
 namespace Spine.Props.C10
 open Spine
@@ -165,6 +169,54 @@ theorem c10_unresolvable (c : Td.Cfg) (s : Td.St) (p : Nat) : (Td.drop c s p).al
 
 example : Reg.subsOf (Td.drop {} (Td.run {} s0 hist) 1).reg 2 ≠ [] ∧ (Td.drop {} (Td.run {} s0 hist) 1).alive = [2] := by
   decide
+
+/-! ## "… including while messages of other peers are being processed" -/
+
+/-- Every member: a teardown is a sequence of passes, each one critical section of a manager — for every entity of the
+    peer a subscription pass, then for every entity a binding pass. Calls of other peers can be processed between any
+    two passes; `Reg.Op` has the passes as operations of their own, so every interleaving of such calls with the passes
+    of any number of teardowns is a history, and every history theorem (`C09.c09_at_most_one`, `C08.c08_ids_distinct`,
+    `C08.c08_pairs_nodup_static`, …) covers it. -/
+theorem c10_teardown_is_passes (c : Reg.Cfg) (s : Reg.St) (p : Nat) :
+    let ents := (s.rem p).map (·.ent)
+    let s1 := ents.foldl (fun s e => Reg.subsPass s p e) s
+    let s2 := ents.foldl (fun s e => Reg.bindsPass c s p e) s1
+    (Reg.dropPeer c s p).subs = s2.subs ∧ (Reg.dropPeer c s p).binds = s2.binds :=
+  Reg.dropPeer_eq_passes c s p
+
+/-- … and the removal of an entity is one subscription pass and one binding pass. -/
+theorem c10_entity_is_passes (c : Reg.Cfg) (s : Reg.St) (p : Nat) (ent : List Nat)
+    (hex : ((s.rem p).map (·.ent)).contains ent = true) :
+    (Reg.dropEntity c s p ent).subs = (Reg.bindsPass c (Reg.subsPass s p ent) p ent).subs ∧
+    (Reg.dropEntity c s p ent).binds = (Reg.bindsPass c (Reg.subsPass s p ent) p ent).binds :=
+  Reg.dropEntity_eq_passes c s p ent hex
+
+/-- Every member: whatever state a subscription pass of peer `p`'s teardown finds — in particular one in which another
+    peer `q` has just been granted a subscription or a binding — it leaves the lists of `q` exactly as they are: nothing
+    granted to `q` during a teardown is lost to a subscription pass. -/
+theorem c10_subs_pass_others (s : Reg.St) (p q : Nat) (hq : q ≠ p) (ent : List Nat) :
+    Reg.subsOf (Reg.subsPass s p ent) q = Reg.subsOf s q ∧ Reg.bindsOf (Reg.subsPass s p ent) q = Reg.bindsOf s q :=
+  Reg.subsPass_others s p q hq ent
+
+/-- Repaired code: the same for a binding pass. -/
+theorem c10_binds_pass_others (s : Reg.St) (p q : Nat) (hq : q ≠ p) (ent : List Nat) :
+    Reg.bindsOf (Reg.bindsPass Reg.Cfg.clean s p ent) q = Reg.bindsOf s q ∧
+    Reg.subsOf (Reg.bindsPass Reg.Cfg.clean s p ent) q = Reg.subsOf s q :=
+  Reg.bindsPass_others s p q hq ent
+
+/-- REFUTED on the code as written (same defect, known finding `teardown-removes-other-peers-binding`): a binding
+    granted to peer 2 while peer 1 is torn down is deleted by the binding pass for peer 1's entity [1]. -/
+theorem c10_binds_pass_any_peer_refuted :
+    let fs : List Reg.Feat := [⟨[1], 1, 1, .client⟩]
+    let s : Reg.St := { loc := [⟨[1], 1, 1, .server⟩], rem := fun _ => fs }
+    (Reg.addBind s 2 [1] 1 [1] 1 1).2 = true ∧
+    Reg.bindsOf (Reg.bindsPass {} (Reg.addBind s 2 [1] 1 [1] 1 1).1 1 [1]) 2 = [] :=
+  Reg.bindsPass_any_peer_witness
+
+/-- non-vacuity: peer 2 subscribes between the two subscription passes of peer 1's teardown and keeps the entry -/
+example :
+    let s := Reg.run Reg.Cfg.clean loc rem [.sub 1 [1] 1 [1] 1 1, .sub 1 [2] 1 [1] 1 1, .subsPass 1 [1], .sub 2 [1] 1 [1] 1 1, .subsPass 1 [2]]
+    s.subs.map Reg.key = [(2, [1], 1, [1], 1)] := by decide
 
 /-! ## clause 3: no further datagram is written to the removed connection -/
 
